@@ -382,6 +382,97 @@ Proof.
 Qed.
 
 (* ---------------------------------------------------------------------------------------------- *)
+(* stage 3: when the call DOES return (the statement only says when it must not), and what it does
+   when no checksum is available                                                                   *)
+
+(* the k-th checksum answer does not refute body b: it is unavailable, or it is b's own checksum *)
+Definition Accepts (md5 : Z -> Z) (w : world) (b : Z) (k : nat) : Prop :=
+  wsum w k = CNone \/ wsum w k = Sum (md5 b).
+
+Lemma accepts_iff_not_mismatch : forall md5 w b k, Accepts md5 w b k <-> ~ Mismatch md5 w b k.
+Proof.
+  intros md5 w b k. unfold Accepts, Mismatch. destruct (wsum w k) as [c|]; split; intros H.
+  - intros (c' & Hc & Hn). destruct H as [H|H]; [discriminate|]. congruence.
+  - right. destruct (Z.eq_dec (md5 b) c) as [->|Hne]; [reflexivity|]. exfalso. apply H. eauto.
+  - intros (c' & Hc & _). discriminate.
+  - left. reflexivity.
+Qed.
+
+Ltac acc :=
+  repeat match goal with
+  | H : Accepts _ _ _ _ |- _ => unfold Accepts in H; destruct H
+  end.
+
+Section Flow3.
+  Variable md5 : Z -> Z.
+  Variable w : world.
+  Let r := download md5 w.
+
+  (* the call ends with "downloaded" exactly when it was not skipped and either the first 200 body
+     was not refuted, or it was refuted and the second data GET brought a body that was not *)
+  Lemma done_iff : r_out r = RetDone <->
+    n_data r <> O /\
+    ((exists b1, wdata w 0 = Body b1 /\ Accepts md5 w b1 (k0 w)) \/
+     (exists b1 b2, wdata w 0 = Body b1 /\ Mismatch md5 w b1 (k0 w) /\
+                    wdata w 1 = Body b2 /\ Accepts md5 w b2 (S (k0 w)))).
+  Proof.
+    unfold r. run_download w; split; intros H; inv; try discriminate; try reflexivity; try lia.
+    all: try (split; [lia|]).
+    all: try (left; eexists; split; [reflexivity|]; unfold Accepts; cbn; first [left; assumption | right; congruence]).
+    all: try (right; do 2 eexists; split; [reflexivity|]; split; [eexists; split; [eassumption|congruence]|];
+              split; [reflexivity|]; unfold Accepts; cbn; first [left; assumption | right; congruence]).
+    all: exfalso; repeat match goal with H : _ \/ _ |- _ => destruct H end; inv; acc; cbn in *; congruence.
+  Qed.
+
+  (* "skipped" is the outcome exactly when no data GET was made *)
+  Lemma skip_out_iff : r_out r = RetSkip <-> n_data r = O.
+  Proof. unfold r. run_download w; split; intros H; try discriminate; try reflexivity; try lia. Qed.
+
+  Lemma returned_iff : returned (r_out r) = true <-> r_out r = RetSkip \/ r_out r = RetDone.
+  Proof.
+    destruct (outcome_model md5 w) as [H|[H|[H|H]]]; fold r in H; rewrite H; cbn; split; intros K; auto;
+      try discriminate; destruct K; discriminate.
+  Qed.
+
+  (* no checksum is ever available: exactly one data GET whatever was on disk (an existing file cannot
+     be established as valid and is downloaded again); a 200 body is accepted as it is, an error status
+     raises and leaves the file alone *)
+  Lemma no_checksum : ConstSums w -> w_rest w = CNone ->
+    n_data r = 1%nat /\
+    (forall b, wdata w 0 = Body b -> r = {| r_out := RetDone; r_file := Some b; r_trace := trace_of w 1 |}) /\
+    (wdata w 0 = DErr -> r_out r = RaiseHttp /\ r_file r = w_prior w).
+  Proof.
+    intros Hc Hr.
+    assert (Hs : forall k, wsum w k = CNone) by (intros k; rewrite wsum_const by exact Hc; exact Hr).
+    assert (S0 := Hs 0%nat). assert (S1 := Hs 1%nat). clear Hs.
+    revert S0 S1. unfold r. run_download w; intros; try discriminate; (split; [reflexivity|]); split; intros;
+      try discriminate; try (split; reflexivity);
+      repeat match goal with H : Body _ = Body _ |- _ => injection H as H; subst end; reflexivity.
+  Qed.
+
+  (* the checksum URL always answers c and the existing file (if any) does not have MD5 c: a good
+     first transfer returns after one data GET, a corrupted first transfer followed by a good one
+     returns after two; in both cases the file is the good body *)
+  Lemma good_transfer_returns : forall c, ConstSums w -> w_rest w = Sum c ->
+    (forall b, w_prior w = Some b -> md5 b <> c) ->
+    (forall g, wdata w 0 = Body g -> md5 g = c ->
+       r = {| r_out := RetDone; r_file := Some g; r_trace := trace_of w 1 |}) /\
+    (forall b1 g, wdata w 0 = Body b1 -> md5 b1 <> c -> wdata w 1 = Body g -> md5 g = c ->
+       r = {| r_out := RetDone; r_file := Some g; r_trace := trace_of w 2 |}).
+  Proof.
+    intros c Hc Hr Hp.
+    assert (Hs : forall k, wsum w k = Sum c) by (intros k; rewrite wsum_const by exact Hc; exact Hr).
+    assert (S0 := Hs 0%nat). assert (S1 := Hs 1%nat). assert (S2 := Hs 2%nat). clear Hs.
+    revert Hp S0 S1 S2. unfold r. run_download w; intros; split; intros;
+      repeat match goal with
+      | H : Sum _ = Sum _ |- _ => injection H as H; subst
+      | H : Body _ = Body _ |- _ => injection H as H; subst
+      | H : forall b, Some _ = Some b -> _ |- _ => specialize (H _ eq_refl)
+      end; try discriminate; try congruence; try reflexivity.
+  Qed.
+End Flow3.
+
+(* ---------------------------------------------------------------------------------------------- *)
 (* (B) bytes                                                                                       *)
 
 Section BytesProofs.
